@@ -180,7 +180,7 @@ func buildLines(tier string) []lineCase {
 	names := []string{"Query", "Route", "Foo", "x_1"}
 	values := []string{"a", "a-b", "/a/{b}", "a b", "{x}", `a\b`}
 	seps := []string{", ", ",", ",  "}
-	descs := []string{"", "text", "héllo wörld ✓", "see (x)", "see {x}", "see {x})", "a, b", "see ({y:2})", "@Other(x)", "see {x}) for details", "a }) b }) c", "ends }) {k: 1}) more"}
+	descs := []string{"", "text", "héllo wörld ✓", "see (x)", "see {x}", "see {x})", "a, b", "see ({y:2})", "@Other(x)", "see {x}) for details", "a }) b }) c", "ends }) {k: 1}) more", "(experimental) creates a user", "(since v2)"}
 	props := propsAlphabet()
 	valid := map[string]bool{}
 	for _, p := range props {
@@ -540,7 +540,7 @@ func Main(tier, replay string) {
 	}
 	blocks := enumerateBlocks(maxLen)
 	exploreBlocks(run, blocks)
-	run.Bound = fmt.Sprintf("every line of the bounded grammar (%d lines: 4 names x 6 values x 19 property literals x 3 separators x 12 descriptions + 27 non-annotation lines); every comment block of <= %d lines over %d line kinds (%d blocks)", len(lines), maxLen, len(blockKinds), len(blocks))
+	run.Bound = fmt.Sprintf("every line of the bounded grammar (%d lines: 4 names x 6 values x 19 property literals x 3 separators x 14 descriptions + 27 non-annotation lines); every comment block of <= %d lines over %d line kinds (%d blocks)", len(lines), maxLen, len(blockKinds), len(blocks))
 	run.Rule = "state = one comment line or block as written in a Go file; transition = go/parser + gast.MapDocListToCommentBlock + annotations.NewAnnotationHolder on it; validated = comparisons with the left-to-right string-aware reference parser (name, value, properties deep-equal, description, order, free text, description rule, malformed JSON5 => error)"
 	run.Assumptions = []string{"whitespace before the comma and the unbalanced-object case are not judged (statement silent)", "expected property objects are written by hand per literal, not computed by a JSON5 library"}
 	run.Finish()
